@@ -11,6 +11,8 @@ import Proofs.C01.GlvGen
 import Proofs.C01.NumberTheory
 import Proofs.C01.Sqrt
 import Proofs.C01.Jacobi
+import Proofs.C01.Totality
+import Proofs.C01.EntrySecp
 /-!
 # C01 — curve and field arithmetic compute exactly the group law (DESIGN.md §3 C01)
 
@@ -53,7 +55,10 @@ theorem negate_jac_refines (Q : JacPoint) (hQ : JValid p c Q) :
   ⟨negateJac_valid hp Q hQ, negateJac_refines hp Q hQ⟩
 end T1
 
-/-- T8 for the shared reference multiplication every scheme-level driver runs (`Btc.EC.mult`):
+/-- About the REFERENCE ladder `Btc.EC.mult` (plain double-and-add in `Model/Common/EC.lean`, what every scheme-level
+driver runs) — NOT about the route btclib's public `mult` takes (fixed base / regular window / GLV: see `mult_entry`,
+`mult_entry_given_endo_law`; that the two agree on secp256k1 is tied by the `curve.entry.secp256k1.*` streams).
+T8 for that reference multiplication (`Btc.EC.mult`):
 `mult m Q = (m mod n) • Q` in Mathlib's point group, every integer `m`, every valid `Q` incl. infinity -/
 theorem ec_mult_refines {p : ℕ} [Fact p.Prime] (C : Curve) (hC : C.p = (p : ℤ)) (h2 : NoTwoTorsion p C.toCurveGroup)
     (m : ℤ) (Q : Point) (hQ : AValid p C.toCurveGroup Q) :
@@ -153,7 +158,8 @@ theorem mult_entry (c : CurveCtx α β) (L : JacRel c.o G) (hsecp : c.isSecp = f
     (hG : c.eqAff Q c.G = true → L.R c.GJ g) (hn : (c.n : ℤ) • g = 0)
     (h : multEntry c lam m Q = some A) : L.RA A (m • g) := multEntry_spec c L hsecp hn0 hlam m hQ hG hn h
 
-/-- a point failing `is_on_curve` is refused rather than answered -/
+/-- BY CONSTRUCTION of the model (the first `if` of `multEntry` unfolded): a point failing `is_on_curve` is refused
+rather than answered.  That the REAL `mult` refuses rests on the `offcurve.refused` oracle and the `curve.entry.*` streams. -/
 theorem mult_entry_refuses_off_curve (c : CurveCtx α β) (lam m : ℤ) (Q : β) (hq : c.eqAff Q c.G = false)
     (hoff : c.onCurve Q ≠ some true) : multEntry c lam m Q = none := multEntry_refuses c lam m Q hq hoff
 
@@ -424,18 +430,18 @@ theorem double_mult_regular_window_ec (scalarLen u v w : ℕ) (P Q r : JacPoint)
 /-- `_mult_endomorphism_secp256k1` (what `mult` runs on secp256k1 for a point that is not `G`): `m • Q`, given the
 NAMED endomorphism law `EndoLawEc` (`(β·X, Y, Z)` denotes `λ • P`; `N` kills the group) — decomposition, signs,
 recoding, windows and corrections are proved, with the generated `λ`, `N` -/
-theorem mult_endomorphism_ec (E : EndoLawEc hp H hH) (halfLen m w : ℕ) (Q r : JacPoint) (hQ : JValid p c Q)
+theorem mult_endomorphism_ec_given_endo_law (E : EndoLawEc hp H hH) (halfLen m w : ℕ) (Q r : JacPoint) (hQ : JValid p c Q)
     (hQH : absJ p c Q ∈ H) (h : multEndomorphism (ecOps c) halfLen m Q w = some r) :
     JValid p c r ∧ absJ p c r = (m : ℤ) • absJ p c Q := multEndomorphism_ec hp H hH E halfLen m w Q r hQ hQH h
 
-theorem mult_endomorphism_var_ec (E : EndoLawEc hp H hH) (isFixed : JacPoint → Bool) (fixedW m w : ℕ)
+theorem mult_endomorphism_var_ec_given_endo_law (E : EndoLawEc hp H hH) (isFixed : JacPoint → Bool) (fixedW m w : ℕ)
     (hfw : 1 ≤ fixedW) (Q r : JacPoint) (hQ : JValid p c Q) (hQH : absJ p c Q ∈ H)
     (h : multEndomorphismVar (ecOps c) isFixed fixedW m Q w = some r) :
     JValid p c r ∧ absJ p c r = (m : ℤ) • absJ p c Q :=
   multEndomorphismVar_ec hp H hH E isFixed fixedW m w hfw Q r hQ hQH h
 
 /-- `_double_mult_endomorphism_secp256k1_var` (what `double_mult_var` runs on secp256k1) -/
-theorem double_mult_endomorphism_ec (E : EndoLawEc hp H hH) (isFixed : JacPoint → Bool)
+theorem double_mult_endomorphism_ec_given_endo_law (E : EndoLawEc hp H hH) (isFixed : JacPoint → Bool)
     (eqv : JacPoint → JacPoint → Bool) (fixedW u v w : ℕ) (hfw : 1 ≤ fixedW) (P Q r : JacPoint)
     (hP : JValid p c P) (hPH : absJ p c P ∈ H) (hQ : JValid p c Q) (hQH : absJ p c Q ∈ H)
     (h : doubleMultEndomorphismVar (ecOps c) isFixed eqv fixedW u P v Q w = some r) :
@@ -493,7 +499,7 @@ theorem mod_inv_batch {m : ℤ} (hm : 1 ≤ m) (as : List ℤ) : NT.modInvBatchV
 example : NT.modInvBatchVar [2, 3, 5] 7 = some [4, 5, 3] := by decide
 
 /-- `mod_sqrt_var` on the closed-form branches: an answer is a reduced square root (ANY modulus) -/
-theorem mod_sqrt_sound (a p r : ℤ) (hbr : p % 4 = 3 ∨ p % 8 = 5) (h : NT.modSqrtVar a p = some r) :
+theorem mod_sqrt_sound_closed_form (a p r : ℤ) (hbr : p % 4 = 3 ∨ p % 8 = 5) (h : NT.modSqrtVar a p = some r) :
     0 ≤ r ∧ r < p ∧ r * r % p = a % p := NT.modSqrtVar_sound a p r hbr h
 
 /-- … and for a PRIME modulus a refusal means the operand is not a square, `p ≡ 3 (mod 4)` … -/
@@ -510,5 +516,54 @@ theorem legendre_symbol_is_jacobi (a : ℤ) (P : ℕ) (hP : P % 2 = 1) :
     NT.legendreSymbolVar a (P : ℤ) = some (jacobiSym a P) := NT.legendreSymbolVar_eq_jacobiSym a P hP
 
 example : NT.legendreSymbolVar 5 21 = some 1 := by decide
+
+/-! ## audit follow-up — totality of the fixed base and of the entry points; secp256k1's route; `double_mult_var` -/
+section Totality
+variable {α β G : Type} [AddCommGroup G]
+
+/-- `_mult_fixed_base` ANSWERS for every scalar below `2^scalar_len` (every reduced scalar) and `w ≥ 1` -/
+theorem mult_fixed_base_answers (o : JacOps α β) (scalarLen m w : ℕ) (lam : ℤ) (hw : 1 ≤ w) (hs : 1 ≤ scalarLen)
+    (hm : m < 2 ^ scalarLen) (Q : α) : ∃ r, multFixedBase o scalarLen lam m Q w = some r :=
+  multFixedBase_answers o scalarLen m w lam hw hs hm Q
+
+/-- `mult(m, Q, ec)` ANSWERS for every integer `m` and every `Q` that is `G` or passes `is_on_curve`
+(pure-Python path, every curve but secp256k1) -/
+theorem mult_entry_answers (c : CurveCtx α β) (hc : CtxOk c) (hsecp : c.isSecp = false) (lam m : ℤ) (Q : β)
+    (hQ : c.eqAff Q c.G = true ∨ c.onCurve Q = some true) : ∃ A, multEntry c lam m Q = some A :=
+  multEntry_answers c hc hsecp lam m Q hQ
+
+theorem prepared_mult_answers (c : CurveCtx α β) (hc : CtxOk c) (hsecp : c.isSecp = false) (lam m : ℤ) (Q : β)
+    (hQ : c.onCurve Q = some true) (hinf : c.isInf Q = false) : ∃ A, preparedMult c lam Q m = some A :=
+  preparedMult_answers c hc hsecp lam m Q hQ hinf
+
+/-- the side conditions hold for the context of every real curve with `n ≥ 1`, at the GENERATED widths -/
+theorem ctx_of_ok (C : Curve) (hn : 0 < C.n) : CtxOk (ctxOf C) := ctxOf_ok C hn
+
+/-- `mult` on EVERY curve, secp256k1's GLV route included, GIVEN the endomorphism law (named hypothesis `EndoLaw`) -/
+theorem mult_entry_given_endo_law (c : CurveCtx α β) (L : JacRel c.o G)
+    (E : EndoLaw L Gen.Curves.glv_LAM Gen.Curves.glv_N) (hn0 : 0 < c.n) {lam : ℤ}
+    (hlam : L.blindOk lam) (m : ℤ) {Q A : β} {g : G} (hQ : L.RA Q g)
+    (hG : c.eqAff Q c.G = true → L.R c.GJ g) (hn : (c.n : ℤ) • g = 0)
+    (h : multEntry c lam m Q = some A) : L.RA A (m • g) :=
+  multEntry_spec_given_endo_law c L E hn0 hlam m hQ hG hn h
+
+/-- `double_mult_var(u, H, v, Q, ec)` (pure-Python path, every curve but secp256k1): `u • H + v • Q`, every `u`, `v` -/
+theorem double_mult_entry (c : CurveCtx α β) (L : JacRel c.o G) (hf : L.Functional) (hsecp : c.isSecp = false)
+    (hfw : 1 ≤ c.fixedW) (hn0 : 0 < c.n) (u v : ℤ) {H Q A : β} {h q : G} (hH : L.RA H h) (hQ : L.RA Q q)
+    (hnh : (c.n : ℤ) • h = 0) (hnq : (c.n : ℤ) • q = 0)
+    (hr : doubleMultEntry c u H v Q = some A) : L.RA A (u • h + v • q) :=
+  doubleMultEntry_spec c L hf hsecp hfw hn0 u v hH hQ hnh hnq hr
+
+/-- BY CONSTRUCTION of the model: `double_mult_var` refuses when either point fails `is_on_curve` -/
+theorem double_mult_entry_refuses_off_curve (c : CurveCtx α β) (u v : ℤ) (H Q : β)
+    (hoff : c.onCurve H ≠ some true ∨ c.onCurve Q ≠ some true) : doubleMultEntry c u H v Q = none :=
+  doubleMultEntry_refuses c u v H Q hoff
+end Totality
+
+/-- transfer for the scheme-level properties: under cofactor one (`hcof`, the single named assumption) and `Δ ≠ 0`,
+`Subtype.val` commutes with EVERY operation of the lawful carrier `opsSub K` and the raw `Btc.EC.ops C` the drivers run -/
+theorem ops_sub_hom_of_cofactor_one {p : ℕ} [Fact p.Prime] {C : Curve} (K : CurveOk p C) (h34 : p % 4 = 3)
+    (hcof : ∀ g : Pt p C.toCurveGroup, C.n • g = 0) (hΔ : (curveOf p C.toCurveGroup).toAffine.Δ ≠ 0) :
+    OpsHom (opsSub K) (EC.ops C) (Subtype.val : SubPt p C → Point) := opsSub_hom K h34 hcof hΔ
 
 end Props.C01
